@@ -33,7 +33,9 @@ class LabelGroup(SupportsConfig):
         if isinstance(value_labels, int):
             value_labels = [value_labels]
 
-        value_labels = list(set(value_labels))
+        # sorted: the iteration order of a set depends on the insertion order, so a group that
+        # was saved and loaded again would otherwise list (and save) its labels in another order
+        value_labels = sorted(set(value_labels))
 
         assert (
             len(value_labels) >= 1
